@@ -155,6 +155,12 @@ class KBase:
     def set_style_attribute(self, name, value):
         self.set_attribute(name, value)
 
+    def xpath(self, expr):
+        if expr == "table:table-column/@table:number-columns-repeated":
+            # attribute values are only fed to int() by the callers
+            return [n.rep for n in self._n.kids if n.kind == "column" and n.rep >= 2]
+        raise NotImplementedError("xpath " + expr)
+
     @property
     def document_body(self):
         return None
